@@ -199,8 +199,8 @@ def _payload(t):
 
 def parts(tier, seed):
     if tier == "quick":
-        ps = [(f"programs-{i}", part_programs, {"n": 120, "variants": 10})
-              for i in range(10)]
+        ps = [(f"programs-{i}", part_programs, {"n": 300, "variants": 10})
+              for i in range(12)]
         ps += [("snippets", part_suite_sources, {"variants": 40})]
     else:
         ps = [(f"programs-{i}", part_programs, {"n": 4000, "variants": 20})
